@@ -221,6 +221,14 @@ def make_script(rows, histories):
     return "\n".join(lines) + "\n", index
 
 
+def scripts_for(histories, rows_for):
+    """the scripts session_check would run for these histories (one per candidate table), for other runners (coverage)"""
+    by_table = {}
+    for sid, ops, tid in histories:
+        by_table.setdefault(tid, []).append((sid, ops))
+    return [make_script(rows_for[tid], hs)[0] for tid, hs in by_table.items()]
+
+
 def run_both(c, exe, ws, script, tag="s"):
     p = os.path.join(c.work, "%s.script" % tag)
     with open(p, "w") as f:
